@@ -188,7 +188,7 @@ func init() {
 			return 100
 		},
 		RequiredFeatures: func(tier string) []string {
-			return []string{"side-pot", "split-or-multi-winner", "bust", "mid-hand-topup", "departure", "batch-leave", "batch-update", "released-while-hand-runs", "top-up-overlapping-the-open", "top-ups-and-departure-during-open-retry", "known:dealt-in-leave"}
+			return []string{"side-pot", "split-or-multi-winner", "bust", "mid-hand-topup", "departure", "batch-leave", "batch-update", "released-while-hand-runs", "top-up-overlapping-the-open", "top-ups-and-departure-during-open-retry", "stacks-above-2^53", "known:dealt-in-leave"}
 		},
 		CaseTimeout: 180e9,
 		Run:         c01Run,
@@ -312,6 +312,12 @@ func c01Run(c *h.Ctx) {
 	}
 	if c.R.Intn(3) == 0 {
 		po.Gen.ShortStacks = true
+	}
+	if c.Case%16 == 5 {
+		// stacks above 2^53 (odd amounts): a chip count that passes through a floating-point number anywhere (the
+		// engine copies its table through JSON at every open) is rounded (round 7)
+		po.Gen.Whales = true
+		c.Feature("stacks-above-2^53")
 	}
 	mon := c01Mon()
 	if c.Case%8 == 3 {
